@@ -190,6 +190,42 @@ func c05(args []string) {
 			if accum {
 				nrows = 1 + r.intn(6)
 			}
+			// the full-resolution destination fields on the wire in the SAME message, declared after the container: the wire values
+			// are collected for the whole message before any component is expanded, so they seed the accumulators of this message
+			var inlineFields []proto.Field
+			var inlineBytes [][]byte
+			inline := map[byte]uint32{}
+			if accum && r.chance(1, 4) {
+				for _, cm := range comps {
+					d := factory.CreateField(ow.mesg, cm.FieldNum)
+					if _, dup := inline[cm.FieldNum]; dup || !cm.Accumulate || !d.Accumulate || d.Array || d.Num == fld.Num || len(d.Components) > 0 ||
+						(d.BaseType != basetype.Uint8 && d.BaseType != basetype.Uint16 && d.BaseType != basetype.Uint32) {
+						continue
+					}
+					used := false
+					for _, e := range extra {
+						used = used || e.Num == d.Num
+					}
+					if used {
+						continue
+					}
+					sz := int(d.BaseType.Size())
+					v := uint64(1)<<uint(cm.Bits) + uint64(r.intn(1<<16))
+					if r.chance(1, 3) {
+						v = uint64(r.intn(4000))
+					}
+					v &= uint64(1)<<uint(8*sz) - 1
+					if v == uint64(1)<<uint(8*sz)-1 {
+						v--
+					}
+					inline[cm.FieldNum] = uint32(v)
+					inlineFields = append(inlineFields, d)
+					inlineBytes = append(inlineBytes, leBytes(v, sz))
+				}
+				if len(inline) > 0 {
+					stat("rows_with_destination_fields_in_the_same_message", 1)
+				}
+			}
 			rows := make([][][]byte, nrows)
 			raws := make([][]byte, nrows)
 			for j := range rows {
@@ -246,9 +282,10 @@ func c05(args []string) {
 				raws[j] = raw
 				row := [][]byte{raw}
 				row = append(row, extraBytes...)
+				row = append(row, inlineBytes...)
 				rows[j] = row
 			}
-			fields := append([]proto.Field{fld}, extra...)
+			fields := append(append([]proto.Field{fld}, extra...), inlineFields...)
 			recs := recordsFor(ow.mesg, fields, rows)
 			// preamble: a message carrying the full-resolution destination fields on the wire; they seed the accumulators
 			seeds := map[byte]uint32{}
@@ -379,6 +416,9 @@ func c05(args []string) {
 				container := m.FieldByNum(fld.Num)
 				if container == nil || !container.Value.Valid(fld.BaseType) {
 					continue
+				}
+				for k, v := range inline { // collected from the wire before this message's components are expanded
+					seen[k], totals[k], lasts[k] = true, uint64(v), uint64(v)
 				}
 				bitsAll := new(big.Int)
 				for i := len(raws[mi]) - 1; i >= 0; i-- {
